@@ -158,9 +158,14 @@ def requested_order_rule(ctx, rule="R09h"):
                nontrivial=False)
         return
     sorts = [i for i, t in cfg.calls(b) if (cfg.callee(t) or "").split("::")[-1].startswith("sort")]
-    colls = [i for i, t in cfg.calls(b) if (cfg.callee_decl(t) or "").endswith(("Iterator::collect", "FromIterator::from_iter"))]
+    # where the pairing happens: a `position` call of the function itself (loop form) or the adaptor call that
+    # receives the closure containing it (iterator form)
+    first = [i for i, t in cfg.calls(b) if (cfg.callee_decl(t) or "").endswith("Iterator::position")]
+    for i, t in cfg.calls(b):
+        for cb in common.closure_bodies_passed(fa, b, t):
+            if any((cfg.callee_decl(tt) or "").endswith("Iterator::position") for j, tt in cfg.calls(cb)):
+                first.append(i)
     okb, errb, unk = cfg.ret_class_blocks(b)
-    first = colls[:1]
     p = cfg.find_path(b, first, okb + unk, avoid=sorts, leave_start=True) if first and sorts else [0]
     ok = bool(sorts) and bool(first) and p is None
     ctx.ob(rule, "values_by_keys:sorted-by-request", ok,
